@@ -1132,10 +1132,9 @@ func (fr *frame) typeAssert(in *ssa.TypeAssert, st *State, R string) {
 	P := fc.P
 	x := fr.val(in.X)
 	var ok, val string
-	if _, isIface := in.AssertedType.Underlying().(*types.Interface); isIface {
+	if iface, isIface := in.AssertedType.Underlying().(*types.Interface); isIface {
 		name := "impl_" + mangle(shortTypeString(in.AssertedType))
-		P.needTagof()
-		P.Declare(name, fmt.Sprintf("(declare-fun %s (Int) Bool)", name))
+		P.DeclareImpl(name, iface)
 		ok = fmt.Sprintf("(and (not (= %s 0)) (%s (tagof %s)))", x, name, x)
 		val = x
 	} else {
